@@ -186,13 +186,27 @@ def block_literals(chain):
         out.append((b["n"], rec({
             "n": b["n"], "hasTarget": "TRUE" if has else "FALSE", "par": dao_lit(par["dao"]), "dao": dao_lit(b["dao"]),
             "estart": b["epoch"]["start"], "elen": b["epoch"]["len"], "ebase": b["epoch"]["base"], "erem": b["epoch"]["rem"],
-            "added": b["added"], "freed": b["freed"], "interest": 0, "cbCap": b["cb_cap"], "cbOutputs": b["cb_outputs"],
+            "added": b["added"], "freed": b["freed"], **wd_fields(b), "cbCap": b["cb_cap"], "cbOutputs": b["cb_outputs"],
             "tn": t["n"], "tstart": t["epoch"]["start"], "tlen": t["epoch"]["len"], "tbase": t["epoch"]["base"],
             "trem": t["epoch"]["rem"], "tparU": tpar["dao"]["u"], "tparC": tpar["dao"]["c"],
             "tfee": b["calc"]["tx_fee"] if has else 0, "tprop": b["calc"]["proposal_reward"] if has else 0,
             "cellOcc": b["calc"]["cell_occ"], "liveCap": b["live_cap"], "parLiveCap": par["live_cap"], "liveOcc": b["live_occ"],
-            "fees": sum(x["fee"] for x in b["commits"])})))
+            "fees": sum(int(x["fee"]) for x in b["commits"])})))
     return out
+
+
+def wd_fields(b):
+    """NervosDAO phase-2 inputs of a block as flat record fields (at most three per block are generated)"""
+    wd = b.get("wd", [])
+    if len(wd) > 3:
+        raise V.ToolError("more than three NervosDAO withdrawals in one block: extend Economics_A.tla")
+    f = {"wdN": len(wd)}
+    for k in range(3):
+        w = wd[k] if k < len(wd) else {"cap": 0, "occ": 0, "arD": 1, "arW": 1}
+        f.update({"w%dcap" % (k + 1): w["cap"], "w%docc" % (k + 1): w["occ"], "w%darD" % (k + 1): w["arD"], "w%darW" % (k + 1): w["arW"]})
+    f.update({"wClaim": sum(int(w["claimed"]) for w in wd), "wPlainIn": b.get("w_plain_in", 0), "wOut": b.get("w_out", 0),
+              "wFeeObs": b.get("w_fee_obs", 0)})
+    return f
 
 
 def run_apalache(name, secondary, lits, timeout):
@@ -240,16 +254,174 @@ def judge_amounts(c, scenarios, chains, timeout=900):
         for i, (n, _) in enumerate(lits, start=1):
             judged += 1
             b = ch["blocks"][n]
+            if i in set(state["badClaim"]):
+                raise V.ToolError("chain %s block %d: the amount the harness made a withdrawal create (%s) is not WithdrawAmount of "
+                                  "EconomicsArith.tla (%s): harness arithmetic and specification disagree" % (
+                                      s["id"], n, b.get("wd"), state["expWithdraw"].get(json.dumps(i))))
             for var, what in (("badDao", "dao-field"), ("badOccupied", "u-is-not-occupied"), ("badCellbase", "cellbase-amount"),
-                              ("badMint", "other-mint")):
+                              ("badMint", "other-mint"), ("badWithdrawFee", "withdraw-fee")):
                 if i in set(state[var]):
                     exp = state["expDao"].get(json.dumps(i)) if var == "badDao" else (
                         state["expCellbase"].get(json.dumps(i)) if var == "badCellbase" else None)
-                    c.violation("%s/%s" % (what, "first-payout" if n == s["wf"] + 2 else "block"),
+                    c.violation("%s/%s" % (what, "withdrawal-block" if b.get("wd") else "first-payout" if n == ch["wf"] + 2 else "block"),
                                 "chain %s block %d: %s differs from the specification: observed dao=%s cellbase=%s live=%s, "
                                 "specification %s" % (s["id"], n, what, b["dao"], b["cb_cap"], b["live_cap"], exp),
                                 {"kind": "scenario", "scenario": s, "block": n, "spec": exp})
     return judged
+
+
+# ---------------------------------------------------------------------------------------------- NervosDAO life cycles
+DAO_OCC = lambda args: (82 + args) * 100000000     # capacity 8 + lock 33 + args + type 33 + data 8 bytes
+
+
+def dao_model_check(c, tier):
+    """Dao.tla exhaustively: Conservation, UExact, Solvent, PaysExactly, ... over every assignment of life-cycle
+    operations to <= 6 blocks for two deposits; the exported full-length chains are the replay patterns."""
+    res = V.tlc(PID, "MC_Dao", "MC_Dao_6.cfg", workers=4, timeout=900, coverage=True)
+    if res["violated"]:
+        c.violation("model/dao/" + res["violated"], "Dao.tla violates %s" % res["violated"],
+                    {"kind": "model", "module": "MC_Dao", "cfg": "MC_Dao_6.cfg", "tlc_tail": res["out"][-3000:]})
+    V.require_coverage(res, ["MCNext"], "MC_Dao_6.cfg")
+    c.add_tlc(res, "MC_Dao_6.cfg")
+    pats = V.tlc_json_lines(res["out"], "DAOCHAIN")
+    if len(pats) < 500 or res["queue"] != 0:
+        raise V.ToolError("MC_Dao_6.cfg: too few life-cycle chains exported (%d) or search not exhausted" % len(pats))
+    # oracle self-tests: the accounting variants must be rejected by the invariant that states the rule they break
+    for cfg, inv in (("MC_Dao_bug_s.cfg", "Conservation"), ("MC_Dao_bug_occ.cfg", "PaysExactly"), ("MC_Dao_vac.cfg", "NoInterestEver")):
+        r = V.tlc(PID, "MC_Dao", cfg, workers=2, timeout=600, coverage=False)
+        if r["violated"] != inv:
+            raise V.ToolError("oracle self-test failed: %s does not violate %s (got %s)" % (cfg, inv, r["violated"]))
+    c.set("selftest_dao_variants_rejected", ["interest_not_taken_from_s -> Conservation", "occupied_part_grows -> PaysExactly",
+                                            "vacuity: a withdrawal with positive interest exists"])
+    return pats
+
+
+def dao_cells(rnd, n):
+    cells = []
+    for i in range(n):
+        args = rnd.choice([0, 0, 7, 20, 33])
+        occ = DAO_OCC(args)
+        kind = (i + rnd.randrange(3)) % 3
+        cap = occ + rnd.choice([1, 3, 99999]) if kind == 0 else (
+            occ + rnd.randrange(10 ** 9, 10 ** 11) if kind == 1 else rnd.randrange(10 ** 12, 3 * 10 ** 12) + rnd.randrange(1, 10 ** 6))
+        cells.append({"cap": cap, "args": args})
+    return cells
+
+
+def dao_scenario(rnd, sid, ops, combine):
+    n = len(ops[0])
+    return {"id": sid, "epoch_len": rnd.choice([3, 4, 5, 7]), "epoch_reward": rnd.choice([1000003, 999983, 77777]),
+            "shift": rnd.choice([1, 2]), "tail": 5, "combine": combine, "cells": dao_cells(rnd, n), "ops": ops,
+            "fees": {"deposit": [rnd.randrange(0, 5000) for _ in range(n)], "prepare": [rnd.choice([0, rnd.randrange(1, 3000)]) for _ in range(n)],
+                     # the first deposit always withdraws EXACTLY the maximum (fee 0): the boundary on the accepting side
+                     "withdraw": [0 if i == 0 else rnd.choice([0, rnd.randrange(1, 10 ** 6)]) for i in range(n)]}}
+
+
+def dao_random_ops(rnd, n, length):
+    ph = ["free"] * n
+    nxt = {"free": "deposit", "dep": "prepare", "prep": "withdraw"}
+    new = {"deposit": "dep", "prepare": "prep", "withdraw": "out"}
+    ops = []
+    for b in range(length):
+        row = []
+        for i in range(n):
+            k = nxt.get(ph[i])
+            if k and rnd.random() < (0.55 if b < length - 3 else 0.9):
+                row.append(k)
+                ph[i] = new[k]
+            else:
+                row.append("none")
+        ops.append(row)
+    return ops
+
+
+def dao_scenarios(pats, rnd, tier):
+    both_same = [p for p in pats if p["both"] and p["sameBlock"]]
+    both_diff = [p for p in pats if p["both"] and not p["sameBlock"]]
+    single = [p for p in pats if not p["both"]]
+    if not both_same or not both_diff or not single:
+        raise V.ToolError("vacuous Dao model: a class of life-cycle chains is missing")
+    n_each = 1 if tier == "quick" else 8
+    out = []
+    for j, p in enumerate(rnd.sample(both_same, n_each)):
+        out.append(dao_scenario(rnd, "dc%d" % j, p["ops"], True))          # ONE transaction consuming both phase-1 cells
+    for j, p in enumerate(rnd.sample(both_same, n_each)):
+        out.append(dao_scenario(rnd, "ds%d" % j, p["ops"], False))         # two phase-2 transactions in one block
+    for j, p in enumerate(rnd.sample(both_diff, n_each)):
+        out.append(dao_scenario(rnd, "dd%d" % j, p["ops"], False))
+    if tier != "quick":
+        for j, p in enumerate(rnd.sample(single, n_each)):
+            out.append(dao_scenario(rnd, "d1%d" % j, p["ops"], False))
+    for j in range(1 if tier == "quick" else 10):
+        out.append(dao_scenario(rnd, "dr%d" % j, dao_random_ops(rnd, 3, rnd.choice([7, 8, 9])), j % 2 == 0))
+    return out
+
+
+def build_dao_chains(scenarios):
+    res = {}
+    for i in range(0, len(scenarios), 20):
+        part = scenarios[i:i + 20]
+        inp = "".join(json.dumps(s) + "\n" for s in part)
+        rc, out = V.ckbv("c06", ["dao"], timeout=1500, stdin=inp.encode())
+        lines = V.parse_ndjson(out)
+        if rc != 0 or not [x for x in lines if "summary" in x]:
+            V.log(out[-3000:])
+            raise V.ToolError("c06 dao failed rc=%d" % rc)
+        for x in lines:
+            if "scenario" in x:
+                if "error" in x:
+                    raise V.ToolError("NervosDAO scenario %s could not be built on the real node: %s" % (x["scenario"], x["error"]))
+                res[x["scenario"]] = x
+    return res
+
+
+def claim_confirmed(s, wd, timeout):
+    """the harness' own withdraw arithmetic for these inputs agrees with EconomicsArith!WithdrawAmount (Apalache)"""
+    z = {"ar": 1, "c": 1, "s": 0, "u": 0}
+    lit = rec({"n": 1, "hasTarget": "FALSE", "par": dao_lit(z), "dao": dao_lit(z), "estart": 0, "elen": 1000, "ebase": 0, "erem": 0,
+               "added": 0, "freed": 0, **wd_fields({"wd": wd}), "cbCap": 0, "cbOutputs": 0, "tn": 1, "tstart": 0, "tlen": 1000, "tbase": 0,
+               "trem": 0, "tparU": 0, "tparC": 1, "tfee": 0, "tprop": 0, "cellOcc": 0, "liveCap": 0, "parLiveCap": 0, "liveOcc": 0, "fees": 0})
+    state, _, _ = run_apalache(str(s["id"]) + "_claim", "1", [lit], timeout)
+    return 1 not in set(state["badClaim"])
+
+
+def judge_dao(c, scenarios, chains, timeout=900):
+    """probes and refusals first (they end a chain), then every recorded block at real magnitude"""
+    stats = {"withdrawals": 0, "with_interest": 0, "exact_maximum_accepted": 0, "over_by_one_refused": 0, "combined_txs": 0,
+             "deposit_and_withdraw_in_different_epochs": 0, "blocks": 0}
+    for s in scenarios:
+        ch = chains[s["id"]]
+        if ch.get("probe_accepted"):
+            c.violation("withdraw/over-maximum-accepted", "chain %s block %d: a block whose NervosDAO withdrawal creates ONE shannon more than "
+                        "WithdrawAmount was accepted" % (s["id"], ch["probe_accepted"]["block"]), {"kind": "dao", "scenario": s})
+        r = ch.get("refused")
+        if r:
+            # the life cycle is a behaviour of Dao.tla (every operation Allowed, amounts <= WithdrawAmount): a refusal that comes
+            # from the DAO accounting itself is a disagreement with the specification, anything else is tool trouble
+            if ("Dao(" in r["error"] or "dao:" in r["error"]) and (not r["wd"] or claim_confirmed(s, r["wd"], timeout)):
+                c.violation("nervosdao/valid-%s-refused/%s" % ("withdrawal" if "withdraw" in r["kinds"] else "-".join(sorted(set(r["kinds"]))) or "block", r["stage"]),
+                            "chain %s block %d: a block whose NervosDAO operations are allowed by Dao.tla (withdrawals creating at most "
+                            "WithdrawAmount) is refused by the DAO accounting: %s" % (s["id"], r["block"], r["error"]), {"kind": "dao", "scenario": s})
+            else:
+                raise V.ToolError("NervosDAO scenario %s: block %d refused at %s: %s" % (s["id"], r["block"], r["stage"], r["error"]))
+        for b in ch["blocks"][1:]:
+            for pr in b.get("probes", []):
+                if pr["verdict"].startswith("rejected") and "Dao(" in pr["verdict"]:
+                    stats["over_by_one_refused"] += 1
+                elif pr["verdict"] != "accepted":
+                    raise V.ToolError("NervosDAO probe of chain %s block %d was refused for another reason: %s" % (s["id"], b["n"], pr["verdict"]))
+            for w in b.get("wd", []):
+                stats["withdrawals"] += 1
+                stats["with_interest"] += 1 if int(w["claimed"]) > int(w["cap"]) else 0
+                if w["dnum"] // s["epoch_len"] != w["pnum"] // s["epoch_len"]:
+                    stats["deposit_and_withdraw_in_different_epochs"] += 1
+            for x in b["commits"]:
+                if x.get("kind") == "withdraw":
+                    stats["combined_txs"] += 1 if len(x["cells"]) > 1 else 0
+                    stats["exact_maximum_accepted"] += 1 if s["fees"]["withdraw"][x["cells"][0] - 1] == 0 and len(x["cells"]) == 1 else 0
+        if len(ch["blocks"]) > 1:
+            stats["blocks"] += judge_amounts(c, [s], chains, timeout)
+    return stats
 
 
 # ---------------------------------------------------------------------------------------------- driver
@@ -293,7 +465,8 @@ def run(tier):
         "cellbase amount is judged as primary + miner secondary (spec, from epoch and parent DAO field) + the calculator's fee "
         "components, which are judged separately against the earliest-proposer rule",
         "occupied capacity of a single cell is measured with CellOutput::occupied_capacity (the accounting over cells is what is judged)",
-        "NervosDAO deposits / withdrawals (WithdrawAmount, interest) are specified but no scenario exercises them: interest = 0",
+        "NervosDAO cells are typed with a script whose code always succeeds (the on-chain NervosDAO script and its lock-period rule "
+        "are outside the node): what is judged is the node's own accounting - maximum withdraw, recorded fee, DAO field, conservation",
         "permanent difficulty (constant epoch length); epoch boundaries with remainder rewards are crossed (epoch length 4..9)",
     ]
     rnd = random.Random(V.seed())
@@ -329,6 +502,18 @@ def run(tier):
             amt2.append(s)
     blocks = judge_amounts(c, amt2, real)
     c.set("blocks_judged_at_real_magnitude", blocks)
+    # NervosDAO deposits / withdrawals: Dao.tla patterns + random life cycles on real chains
+    dpats = dao_model_check(c, tier)
+    dsc = dao_scenarios(dpats, rnd, tier)
+    dreal = build_dao_chains(dsc)
+    dstats = judge_dao(c, dsc, dreal)
+    for s in dsc:
+        c.case(s, any(k == "withdraw" for row in s["ops"] for k in row))
+    c.add("traces_validated_against_impl", len(dsc))
+    c.set("nervosdao", dstats)
+    if not c.violations and (dstats["with_interest"] < 3 or dstats["over_by_one_refused"] < 3 or dstats["exact_maximum_accepted"] < 1
+                             or dstats["combined_txs"] < 1 or dstats["deposit_and_withdraw_in_different_epochs"] < 1):
+        raise V.ToolError("vacuous NervosDAO run: %s" % dstats)
     c.sample({"scenario": scenarios[0]})
     c.sample({"real_block": real[scenarios[0]["id"]]["blocks"][-1]})
     return c.finish()
@@ -344,6 +529,9 @@ def replay(path, tier):
             c.violation("model/" + res["violated"], "model violation", p)
         return 1 if c.violations else 0
     s = p["scenario"]
+    if p["kind"] == "dao":
+        judge_dao(c, [s], build_dao_chains([s]))
+        return 1 if c.violations else 0
     real = build_chains([s])
     judge_fees(c, [s], real)
     judge_amounts(c, [s], real)
